@@ -407,6 +407,9 @@ def schema_overflow(prog, o):
             r = schema_below_usize(prog, o, a, b, facts)
             if r:
                 return r
+            for x, k in ((a, b), (b, a)):
+                if k == ("int", 1) and _range_item_end(prog, body, x) is not None:
+                    return ("RANGE-ITEM", "an item of a range is below its end, so item + 1 cannot overflow")
         return None
     if op == "Sub":
         if b[0] == "int" and fact_implies_ge(facts, a, b[1]):
